@@ -122,8 +122,8 @@ def m_cmp(a, b, eps):
         if a[1] != b[1]:
             return False
         if eps is None:
-            return a[2] == b[2]
-        return all(abs(x - y) < eps for x, y in zip(a[2], b[2]))
+            return all(x == y for x, y in zip(a[2], b[2]))      # (element-wise: NaN != NaN; tuple equality would short-cut on identity)
+        return all(abs(x - y) < eps for x, y in zip(a[2], b[2]))   # a NaN difference (NaN operand, inf - inf) is not below eps
     return False
 
 
@@ -223,6 +223,23 @@ def gen_pairs(ka, kb, rng, quick):
                         continue
                     db[p] = int(db[p])
                 out.append((a, mk(kb, s, db), "perturbed"))
+    # ---- non-finite elements (floating-point kinds on both sides): NaN on either / both sides, equal and opposite infinities.
+    #      isequal: NaN != NaN, inf == inf; isclose: a NaN difference (NaN operand, inf - inf) is not below eps
+    if is_float(ka) and is_float(kb):
+        nan, inf = float("nan"), float("inf")
+        for s in common[:3]:
+            da = labels(ka, s)
+            n = len(flat_for(kb, s, da))
+            for p in sorted(set([0, n - 1])):
+                for va, vb in ((nan, None), (None, nan), (nan, nan), (inf, inf), (inf, -inf), (-inf, None)):
+                    xa, xb = list(flat_for(ka, s, da)), list(flat_for(kb, s, da))
+                    if p >= len(xa) or p >= len(xb):
+                        continue
+                    if va is not None:
+                        xa[p] = va
+                    if vb is not None:
+                        xb[p] = vb
+                    out.append((mk(ka, s, xa), mk(kb, s, xb), "nonfinite"))
     # ---- different shapes with the same flat data
     diff = [(s1, s2) for s1 in sha for s2 in shb if s1 != s2]
     # (with the library's asserts on every such call aborts its process, so the number of mismatching pairs is bounded in both tiers)
